@@ -398,6 +398,25 @@ fn handle(sh: &Arc<Shared>, mut rq: Request, c: usize, m: usize) {
                 let r = rq.as_reader().read_to_string(&mut text).map(|_| ());
                 got = text.into_bytes();
                 r
+            } else if kind == "vectored" {
+                // read_vectored into two small buffers until it reports the end of the body
+                let mut a = [0u8; 300];
+                let mut b = [0u8; 724];
+                loop {
+                    let n = {
+                        let mut bufs = [std::io::IoSliceMut::new(&mut a), std::io::IoSliceMut::new(&mut b)];
+                        match rq.as_reader().read_vectored(&mut bufs) {
+                            Ok(n) => n,
+                            Err(e) => break Err(e),
+                        }
+                    };
+                    if n == 0 {
+                        break Ok(());
+                    }
+                    let na = n.min(a.len());
+                    got.extend_from_slice(&a[..na]);
+                    got.extend_from_slice(&b[..n - na]);
+                }
             } else if kind == "read_to_end_sized" {
                 // a buffer sized by the declared length: no read is ever larger than what is left of the body
                 got = Vec::with_capacity(rq.body_length().unwrap_or(0));
